@@ -26,7 +26,7 @@ ASSUMPTIONS = ['literal segments only over [A-Za-z0-9_-] (O1)',
                'paths contain no newline (outside the stated alphabet)']
 REQUIRED_REACH = ['match:redirect', 'match:rewrite', 'match:strict', 'nomatch:redirect',
                   'nomatch:rewrite', 'nomatch:strict', 'grammar:rejected', 'grammar:accepted',
-                  'e2e:params-compared']
+                  'e2e:params-compared', 'mode-established-by:route', 'mode-established-by:embedded']
 
 MODES = ('redirect', 'rewrite', 'strict')
 ALPHABET_Q = ['/', 'a', '1', '.', '-', '+', ' ', 'e', 'E', 'é']
@@ -77,15 +77,28 @@ def all_paths(alphabet, maxlen):
 
 
 class Matcher(object):
-    """the real thing: an Application in the given slash mode holding one route"""
+    """the real thing: one route bound so that its effective slash mode is `mode`, established in one of three
+    ways - on the Application (how='app'), on the Route with inheritance opted out (how='route'), or on an outer
+    Application that embeds the route's application under a prefix (how='embedded')"""
+    PREFIX = '/emb'
 
-    def __init__(self, pattern, mode):
-        from clastic import Application, Route
-        self.app = Application([Route(pattern, _ep)], slash_mode=mode)
+    def __init__(self, pattern, mode, how='app'):
+        from clastic import Application, Route, SubApplication
+        other = {'strict': 'redirect', 'redirect': 'strict', 'rewrite': 'strict'}[mode]
+        self.prefix = ''
+        if how == 'app':
+            self.app = Application([Route(pattern, _ep)], slash_mode=mode)
+        elif how == 'route':
+            self.app = Application([], slash_mode=other)
+            self.app.add(Route(pattern, _ep, slash_mode=mode), inherit_slashes=False)
+        else:
+            inner = Application([Route(pattern, _ep, slash_mode=other)], slash_mode=other)
+            self.app = Application([SubApplication(self.PREFIX, inner)], slash_mode=mode)
+            self.prefix = self.PREFIX
         self.broute = self.app.routes[0]
 
     def __call__(self, path):
-        return self.broute.match_path(path)
+        return self.broute.match_path(self.prefix + path)
 
 
 def _ep():
@@ -126,14 +139,14 @@ def classify(kind, elements, mode, path, impl=None, r=None, branch=False):
     return 'C05/' + kind
 
 
-def judge(sh, pattern, elements, branch, mode, path, impl, segs_hint=None, record=True):
+def judge(sh, pattern, elements, branch, mode, path, impl, segs_hint=None, record=True, how='app'):
     """Run one triple through the real matcher and the oracle.  Returns non-triviality."""
     try:
         r = impl(path)
     except Exception as e:
         sh.violation(classify('match-raises', elements, mode, path),
                      'match_path(%r) on %r [%s] raised %s: %s' % (path, pattern, mode, type(e).__name__, e),
-                     {'pattern': pattern, 'mode': mode, 'path': path})
+                     {'pattern': pattern, 'mode': mode, 'path': path, 'how': how})
         return True
     segs = um.segments(path, branch, mode)
     has_bind = any(e[0] == 'bind' for e in elements)
@@ -156,40 +169,40 @@ def judge(sh, pattern, elements, branch, mode, path, impl, segs_hint=None, recor
             sh.violation(classify('missed-match', elements, mode, path, impl, None, branch),
                          'pattern %r [%s] does not match %r although segments %r can be assigned'
                          % (pattern, mode, _short(path), _short(segs)),
-                         {'pattern': pattern, 'mode': mode, 'path': path})
+                         {'pattern': pattern, 'mode': mode, 'path': path, 'how': how})
     else:
         sh.hit('match:' + mode)
         if not liberal:
             sh.violation(classify('false-match', elements, mode, path),
                          'pattern %r [%s] matches %r -> %r although no assignment of %r exists'
                          % (pattern, mode, _short(path), _short(r), _short(segs)),
-                         {'pattern': pattern, 'mode': mode, 'path': path})
+                         {'pattern': pattern, 'mode': mode, 'path': path, 'how': how})
         else:
             why = um.check_values(elements, branch, mode, path, r)
             if why:
                 sh.violation(classify('bad-values', elements, mode, path, impl, r, branch),
                              'pattern %r [%s] on %r returned %r: %s' % (pattern, mode, _short(path), _short(r), why),
-                             {'pattern': pattern, 'mode': mode, 'path': path})
+                             {'pattern': pattern, 'mode': mode, 'path': path, 'how': how})
             for e in elements:
                 if e[0] == 'bind':
                     sh.hit('matched-binding:%s%s' % (e[2] or '1', e[3]))
     return has_bind and segs is not None
 
 
-def run_space(sh, patterns, paths, modes=MODES, sample_every=9973):
+def run_space(sh, patterns, paths, modes=MODES, sample_every=9973, how='app'):
     n_eval = n_nontrivial = 0
     for pattern in patterns:
         elements, branch = um.parse(pattern)
         for mode in modes:
             try:
-                impl = Matcher(pattern, mode)
+                impl = Matcher(pattern, mode, how)
             except Exception as e:
                 sh.violation('C05/valid-pattern-rejected',
                              'Route(%r) [%s] raised %s: %s' % (pattern, mode, type(e).__name__, e),
                              {'pattern': pattern, 'mode': mode, 'path': None})
                 continue
             for path in paths:
-                nt = judge(sh, pattern, elements, branch, mode, path, impl)
+                nt = judge(sh, pattern, elements, branch, mode, path, impl, how=how)
                 n_eval += 1
                 n_nontrivial += bool(nt)
                 if n_eval % sample_every == 1:
@@ -310,17 +323,19 @@ def random_cases(sh, rng, n_patterns, paths_per):
         pattern = render(elems, rng.chance(0.5))
         elements, branch = um.parse(pattern)
         mode = rng.pick(MODES)
+        how = rng.pick(['app', 'route', 'embedded'])
+        sh.hit('mode-established-by:' + how)
         try:
-            impl = Matcher(pattern, mode)
+            impl = Matcher(pattern, mode, how)
         except Exception as e:
             sh.violation('C05/valid-pattern-rejected',
-                         'Route(%r) [%s] raised %s: %s' % (pattern, mode, type(e).__name__, e),
-                         {'pattern': pattern, 'mode': mode, 'path': None})
+                         'Route(%r) [%s via %s] raised %s: %s' % (pattern, mode, how, type(e).__name__, e),
+                         {'pattern': pattern, 'mode': mode, 'path': None, 'how': how})
             continue
         for _ in range(paths_per):
             path = random_path(rng, lits)
-            nt = judge(sh, pattern, elements, branch, mode, path, impl)
-            sh.case({'pattern': pattern, 'mode': mode, 'path': path[:300]}, nontrivial=nt,
+            nt = judge(sh, pattern, elements, branch, mode, path, impl, how=how)
+            sh.case({'pattern': pattern, 'mode': mode, 'path': path[:300], 'how': how}, nontrivial=nt,
                     klass='random-%d-elements' % n,
                     sample={'pattern': pattern, 'mode': mode, 'path': path[:120]})
 
@@ -407,6 +422,12 @@ def run_shard(sh, spec):
         if tier == 'quick':
             pats = all_patterns(2, element_vocab())
             run_space(sh, pats[i::of], all_paths(ALPHABET_Q, 4))
+            # the same patterns with the mode established on the route / by an embedding application, shorter paths
+            short = all_paths(['/', 'a', '1', '.', '-', ' '], 4)
+            run_space(sh, pats[i::of][0::2], short, how='route')
+            run_space(sh, pats[i::of][1::2], short, how='embedded')
+            sh.hit('mode-established-by:route')
+            sh.hit('mode-established-by:embedded')
         else:
             pats = all_patterns(2, element_vocab())
             run_space(sh, pats[i::of], all_paths(['/', 'a', '1', '.', '-', '+', ' ', 'e', 'é'], 5))
@@ -442,10 +463,10 @@ def replay(sh, case, spec):
         return
     pattern = case.get('pattern') or case.get('e2e')
     elements, branch = um.parse(pattern)
-    impl = Matcher(pattern, case['mode'])
+    impl = Matcher(pattern, case['mode'], case.get('how', 'app'))
     if case.get('path') is None:
         return
-    judge(sh, pattern, elements, branch, case['mode'], case['path'], impl)
+    judge(sh, pattern, elements, branch, case['mode'], case['path'], impl, how=case.get('how', 'app'))
     try:
         sh.notes['match_path'] = repr(impl(case['path']))
     except Exception as e:
